@@ -3,8 +3,8 @@ import itertools, os
 from common import *
 
 PID = 'C11'
-TARGETS = ['Properties/C11.vo', 'Bridge/FragBridge.vo']
-KERNELS = ['G1_frag']
+TARGETS = ['Properties/C11.vo', 'Bridge/FragBridge.vo', 'Bridge/MiscFragBridge.vo']
+KERNELS = ['G1_frag', 'G20a_frag_misc']
 PROP_FILE = 'Properties/C11.v'
 DESIGN_REF = 'DESIGN.md section 8, C11'
 
